@@ -108,7 +108,12 @@ def run(out, tier):
     cov["spec_check"] = r.summary()
     cov["checker_cmd"] = r.cmd
     cov["spec_action_coverage"] = {a: v for a, v in r.coverage.items()}
-    never = [a for a, v in r.coverage.items() if v[0] == 0 and a in ("Open", "Item", "Close", "Init")]
+    # the two disjuncts of Next that sit under a quantifier are reported as '<Next line .. (l c l c)>: taken:generated'
+    import re
+    nx = [[int(m.group(1)), int(m.group(2))] for m in (re.match(r"<Next line .*\)>: (\d+):(\d+)", ln) for ln in r.text) if m]
+    if len(nx) >= 2:
+        cov["spec_action_coverage"]["Open"], cov["spec_action_coverage"]["Item"] = nx[-2], nx[-1]
+    never = [a for a in ("Init", "Open", "Item", "Close") if cov["spec_action_coverage"].get(a, [1])[0] == 0]
     cov["spec_actions_never_taken"] = never
     if never:
         raise C.InfraError("specification actions never taken: %s" % never)
